@@ -251,9 +251,11 @@ def missing_guard(chk, prog, funcs):
             for n in walk(f.body):
                 if n.get('kind') == 'IfStmt':
                     c, t, e = flow.if_parts(n)
-                    if match_approx(c) and literal_value(match_approx(c)[1]) == MISS:
-                        for x in walk(c):
-                            cond_nodes.add(id(x))
+                    for sub in walk(c):
+                        m_ = match_approx(sub)
+                        if m_ and literal_value(m_[1]) == MISS:
+                            for x in walk(sub):
+                                cond_nodes.add(id(x))
             for n in walk(f.body):
                 is_read = False
                 key = None
